@@ -42,7 +42,7 @@ def valid(seq):
 
 
 class BufHarness(ex.Harness):
-    sched_kwargs = dict(max_steps=8000)
+    sched_kwargs = dict(max_steps=8000, switch_cost=1)
 
     def __init__(self, seq, cut, gap):
         self.seq = tuple(seq)
@@ -251,9 +251,10 @@ def run(ctx):
     q = ctx.tier == "quick"
     jobs = []
     for h in hs:
+        n = len(h.seq)
         if q:
-            b = 1
+            b = 2 if (n == 1 or set(h.seq) == {"F1", "T1"}) else 1
         else:
-            b = 2 if len(h.seq) <= 3 else 1
+            b = 3 if n <= 2 else (2 if n == 3 else 1)
         jobs.append((h, b))
     ctx.explore_many(jobs, cap=4_000_000 if q else 100_000_000)
